@@ -516,7 +516,9 @@ def plan_C18(run):
 def plan_C19(run):
     """both big-integer back ends: identical scenario sets with identical injected randomness, compared by TLC"""
     r = run.model("clientgroups", "MCClientGroups", "MCClientGroups_%s.cfg" % ("t" if run.thorough else "q"), workers=2)
-    cg = run.scen_file("clientgroups", r.replay if run.thorough else r.replay[::3])
+    rb = run.model("clientbig", "MCClientBig", "MCClientBig_%s.cfg" % ("t" if run.thorough else "q"), workers=2,
+                   exhaustive_note="built-in prime x announced generators; primes of every byte length 2..32 x generators (sampled keys)")
+    cg = run.scen_file("clientgroups", rb.replay + (r.replay if run.thorough else r.replay[::3]))
     corpus = CORPUS if os.path.exists(CORPUS) else None
     ra = run.model("adversary-cases", "MCAdversary", "MCAdversary_cases.cfg", workers=1)
     adv = run.scen_file("adversary", ra.replay)
